@@ -375,6 +375,7 @@ namespace cds { namespace gc { namespace dhp {
     CDS_EXPORT_API void smr::scan( thread_data* pThreadRec )
     {
         thread_record* pRec = static_cast<thread_record*>( pThreadRec );
+        CDS_VERIF_EVENT( "dhp.scan", pRec );
         pRec->sync();
 
         CDS_HPSTAT( ++pRec->scan_call_count_ );
@@ -435,6 +436,7 @@ namespace cds { namespace gc { namespace dhp {
 
     CDS_EXPORT_API void smr::help_scan( thread_data* pThis )
     {
+        CDS_VERIF_EVENT( "dhp.help_scan", pThis );
         assert( static_cast<thread_record*>( pThis )->thread_id_.load( atomics::memory_order_relaxed ) == cds::OS::get_current_thread_id());
         CDS_HPSTAT( ++pThis->help_scan_call_count_ );
 
